@@ -8,7 +8,8 @@
    Not re-implemented (Section variables, instantiated per case by the harness from a table
    of what the real functions returned): the host sanitiser `config.URI.SafeCleanHost`
    (a regexp with optional groups where leftmost-first backtracking matters) and
-   `strings.ToLower` on encodings (Unicode tables).  Hand-written and re-validated against
+   `strings.ToLower` on encodings (Unicode tables); likewise `os.ReadFile` of a GraphQL
+   query_path (`readable`, the file system when the stack is built).  Hand-written and re-validated against
    Go's regexp / textproto / x/text on every run by the generator: the three placeholder
    scanners, `sequentialParamsPattern`, `invalidPattern`, `CanonicalMIMEHeaderKey`, the
    title-casing of one ASCII byte, `strings.ReplaceAll`, `sort.Strings`.
@@ -447,23 +448,30 @@ Definition seq_f (a b : fres) : fres := match a with FOk => b | _ => a end.
 Fixpoint all_f {A} (f : A -> fres) (l : list A) : fres :=
   match l with [] => FOk | x :: r => seq_f (f x) (all_f f r) end.
 
-(* graphql.GetOptions: Some vars = the options were read (json.Marshal + Unmarshal into
-   Options succeeded); a non-empty query_path is modelled as an unreadable file *)
 Definition str_field_ok (m : obj) (k : string) : bool :=
   match lookup k m with None | Some JNull | Some (JStr _) => true | _ => false end.
+Section Factory.
+(* os.ReadFile(path) succeeds - the file system at the moment the stack is built; instantiated
+   per case by the harness from what os.ReadFile answered for every query_path of the case *)
+Variable readable : string -> bool.
+
+(* graphql.GetOptions: Some vars = the options were read: json.Marshal + Unmarshal into
+   Options succeeded and, when query_path is a non-empty string, the file could be read.
+   None = an error: NewGraphQLMiddleware warns and builds the backend without the stage. *)
 Definition gql_options (extra : obj) : option obj :=
   match lookup ns_graphql extra with
   | None => None
   | Some JNull => Some []
   | Some (JObj m) =>
       if forallb (str_field_ok m) ["query"; "operationName"; "query_path"; "type"; "method"] then
+        let vars := match lookup "variables" m with
+                    | None | Some JNull => Some []
+                    | Some (JObj vs) => Some vs
+                    | _ => None
+                    end in
         match lookup "query_path" m with
-        | Some (JStr (String _ _)) => None
-        | _ => match lookup "variables" m with
-               | None | Some JNull => Some []
-               | Some (JObj vs) => Some vs
-               | _ => None
-               end
+        | Some (JStr (String c r)) => if readable (String c r) then vars else None
+        | _ => vars
         end
       else None
   | Some _ => None
@@ -554,3 +562,4 @@ Definition factory_new (e : endpoint) : fres :=
   | [b] => stack_new b
   | bs => seq_f (all_f stack_new bs) (merge_new (e_extra e))
   end.
+End Factory.
